@@ -408,6 +408,12 @@ def check_C19(tier):
          [["dec", "[Si][=Ge][C][Branch1][C][F][Ring1][Ring1]"], ["dec", "[Ge][Si][N+1][C][Ring1][Ring2]"]]),
         ("encoder || encoder (ring spans needing two index symbols)", [["enc", ring], ["enc", ring2]]),
         ("encoder || decoder", [["enc", "c1ccccc1[C@H](N)[Se]"], ["decattr", "[Se][C@H1][=Branch1][C][=O][Ring1][Ring1]"]]),
+        # the same fused odd-ring aromatic system kekulised by both threads for the first time in the process
+        ("encoder || encoder (same odd-ring aromatic system, matching needs augmentation)",
+         [["enc", "c2cc3c4cccc5cccc(c3cc2)c54"], ["enc", "c2cc3c4cccc5cccc(c3cc2)c54"]]),
+        # one call re-reads a symbol it has just cached while the other floods the symbol cache with new symbols
+        ("decoder || decoder (second thread floods the symbol cache with 1100 new symbols)",
+         [["dec", "[C][13CH1][O][13CH1][N][13CH1]"], ["dec", "".join("[%dC]" % k for k in range(14, 1114))]]),
     ]
     if not quick:
         pairs += [("decoder(branch / ring symbols first use) || same", [["dec", "[C][Branch2][C][Ring1][C][=Branch1][C][#Ring1][C]"], ["dec", "[N][=Ring2][C][\\/Ring1][C][Branch3][C]"]]),
